@@ -29,7 +29,8 @@ ENCODES = ['pexpect._async_w_await.expect_async', 'pexpect._async_w_await.Patter
 STUBS = ['asyncio inside pexpect._async_w_await: Future, wait_for (an awaitable that hands control to the harness), '
          'TimeoutError, Protocol; _loop_getter: a loop whose connect_read_pipe attaches the protocol to a recording transport',
          'blocking twin: scripted read_nonblocking delivering the same chunks', 'buffers: real io objects created outside tracing']
-ASSUMPTIONS = ['stream text concrete, delivery schedule symbolic (cut positions and delivery points enumerated through the solver)',
+ASSUMPTIONS = ['chunks the loop delivers while no call is outstanding count as pending text of the next call (the blocking twin gets them as pending text too)',
+               'stream text concrete, delivery schedule symbolic (cut positions and delivery points enumerated through the solver)',
                'one text pattern plus EOF and TIMEOUT in the list (with several text patterns the result legitimately '
                'depends on chunking, as the documentation says)', '<= 3 chunks, 2 calls']
 
@@ -137,17 +138,17 @@ def _state(sp, r, exc):
             sp._before.getvalue())
 
 
-def _sync_call(sp, W, tmo):
+def _sync_call(sp, W, tmo, pats):
     try:
-        return sp.expect_exact([b'ab', EOF, TIMEOUT], timeout=tmo, searchwindowsize=W if W else -1), None
+        return sp.expect_exact(pats, timeout=tmo, searchwindowsize=W if W else -1), None
     except (EOF, TIMEOUT) as e:
         return None, e
 
 
-def _async_call(sp, loop, W, tmo, deliveries, end):
+def _async_call(sp, loop, W, tmo, deliveries, end, pats):
     """one awaited call; deliveries: chunks handed to data_received while the call is outstanding;
     end: None | 'eof' | 'eio' | 'timeout' - what happens if the future is still pending after them"""
-    coro = sp.expect_exact([b'ab', EOF, TIMEOUT], timeout=tmo, searchwindowsize=W if W else -1, async_=True)
+    coro = sp.expect_exact(pats, timeout=tmo, searchwindowsize=W if W else -1, async_=True)
     try:
         w = coro.send(None)              # runs existing_data, (connect|resume), then awaits wait_for
     except StopIteration as si:
@@ -169,13 +170,17 @@ def _async_call(sp, loop, W, tmo, deliveries, end):
     raise AssertionError('coroutine did not finish')
 
 
-@obligation(params=dict(k1=Int(0, 10), k2=Int(0, 10), d1=Int(0, 3), end=Int(0, 2), W=Int(0, 3), early=Int(0, 2), tmode=Int(0, 2)),
-            tags={2: 'both calls matched', 3: 'second call ended in EOF', 4: 'second call timed out', 5: 'data arrived while no call was outstanding'},
+@obligation(params=dict(k1=Int(0, 10), k2=Int(10, 10), d1=Int(0, 3), end=Int(0, 2), W=Int(0, 3), early=Int(0, 2), tmode=Int(0, 2),
+                        listed=Bool()),
+            tags={2: 'both calls matched', 3: 'second call ended in EOF', 4: 'second call timed out', 5: 'data arrived while no call was outstanding',
+                  6: 'EOF/TIMEOUT raised as exceptions (not listed)'},
             timeout=900, split=('end', 'W'),
+            thorough=dict(params=dict(k2=Int(0, 10)), timeout=3000, split=('end', 'W', 'listed', 'early')),
             note='two awaited calls vs two blocking calls on the same stream: k1<=k2 cut the stream into three chunks; '
                  'early chunks arrive before the first await (pending), d1 chunks during the first call, the rest during the second; '
                  'end: EOF / EIO connection loss / timeout; W search window (0 = none)')
-def P1_parity(k1, k2, d1, end, W, early, tmode):
+def P1_parity(k1, k2, d1, end, W, early, tmode, listed=True):
+    pats = [b'ab', EOF, TIMEOUT] if listed else [b'ab']
     n = len(S)
     if not (k1 <= k2 <= n):
         return SKIP
@@ -203,10 +208,12 @@ def P1_parity(k1, k2, d1, end, W, early, tmode):
         for c in pre:                      # output that arrived before anybody asked
             a._before.write(c)
             a._buffer.write(c)
-        r1, e1, w1 = _async_call(a, loop, W, tmo, first, None)
+        r1, e1, w1 = _async_call(a, loop, W, tmo, first, None, pats)
         st_a1 = _state(a, r1, e1)
         idle = (r1 == 0 and len(first) > 0)
-        r2, e2, w2 = _async_call(a, loop, W, tmo, second, endk)
+        if w1 is None:
+            second = first + second        # call 1 answered from pending text without awaiting: nothing was delivered yet
+        r2, e2, w2 = _async_call(a, loop, W, tmo, second, endk, pats)
         st_a2 = _state(a, r2, e2)
         # ---- blocking twin
         b = Sp(script=[('data', c) for c in rest] + [('eof',) if endk != 'timeout' else ('timeout',)], timeout=7)
@@ -215,18 +222,29 @@ def P1_parity(k1, k2, d1, end, W, early, tmode):
             b._buffer.write(c)
         # the blocking first call may only see what had arrived by the end of the awaited first call
         b.script = [('data', c) for c in first] + [('timeout',)]
-        rb1, eb1 = _sync_call(b, W, tmo if tmo is not None else 5)
+        rb1, eb1 = _sync_call(b, W, tmo if tmo is not None else 5, pats)
         st_b1 = _state(b, rb1, eb1)
         leftover = [ev for ev in b.script if ev[0] == 'data']      # arrived during call 1, not read by it
-        b.script = leftover + [('data', c) for c in second] + [('eof',) if endk != 'timeout' else ('timeout',)]
+        if w1 is None:
+            leftover = []                  # (already moved into `second` above)
+        # what the loop delivered after the first match is pending text when the second call starts (with a
+        # search window the outcome legitimately depends on whether text is pending or arrives in a later read)
+        for ev in leftover:
+            b._before.write(ev[1])
+            b._buffer.write(ev[1])
+        b.script = [('data', c) for c in second] + [('eof',) if endk != 'timeout' else ('timeout',)]
         b.flag_eof = False
-        rb2, eb2 = _sync_call(b, W, tmo if tmo is not None else 5)
+        rb2, eb2 = _sync_call(b, W, tmo if tmo is not None else 5, pats)
         st_b2 = _state(b, rb2, eb2)
     # first call: the awaited call timed out exactly when the blocking one did
     if st_a1[0] != st_b1[0] or st_a1[2:6] != st_b1[2:6]:
         return 0
     # pending text may differ only by data that arrived after the awaited match (it is appended, never lost)
-    if st_a2[:6] != st_b2[:6] or st_a2[6] != st_b2[6]:
+    # pending text: the awaited object has already buffered what the loop delivered after the match; the
+    # blocking object still has those chunks unread in its transport - same stream, nothing lost or duplicated
+    unread = b''.join(ev[1] for ev in b.script if ev[0] == 'data')
+    undelivered = b''.join(second) if w2 is None else b''     # call 2 returned from pending text without awaiting
+    if st_a2[:6] != st_b2[:6] or st_a2[6] + undelivered != st_b2[6] + unread:
         return 0
     # wait_for got the resolved timeout
     for w in (w1, w2):
@@ -234,6 +252,8 @@ def P1_parity(k1, k2, d1, end, W, early, tmode):
             return 0
     if loop.connected > 1:
         return 0
+    if e2 is not None:
+        return 6
     if r2 == 0 and r1 == 0:
         return 5 if idle and len(first) > 1 else 2
     if r2 == 1:
@@ -248,6 +268,7 @@ def dry_runs():
         for W in range(4):
             yield 'P1_parity', dict(k1=3, k2=6, d1=1, end=end, W=W, early=1, tmode=0)
             yield 'P1_parity', dict(k1=4, k2=8, d1=2, end=end, W=W, early=0, tmode=1)
+            yield 'P1_parity', dict(k1=1, k2=2, d1=1, end=end, W=W, early=0, tmode=0, listed=False)
 
 
 MANIFEST_ENTRY = {
